@@ -284,14 +284,33 @@ func checkC20(c *core.Ctx) {
 				if !ok || core.FieldOfAddr(fa).Name() != "current" {
 					return
 				}
-				sl, ok := st.Val.(*ssa.Slice)
-				if !ok || sl.Low == nil {
+				// the queue shrinks or is dropped: r.current = r.current[k:] (any k) or r.current = nil
+				shrinks := false
+				if core.IsNilConst(st.Val) {
+					shrinks = true
+				}
+				if sl, ok := st.Val.(*ssa.Slice); ok && sl.Low != nil {
+					if _, ok := core.LoadsField(sl.X, "current"); ok {
+						if lo, isK := core.ConstInt(sl.Low); !isK || lo >= 1 {
+							shrinks = true
+						}
+					}
+				}
+				if !shrinks {
 					return
 				}
-				if lo, ok := core.ConstInt(sl.Low); !ok || lo < 1 {
-					return
-				}
-				if _, ok := core.LoadsField(sl.X, "current"); !ok {
+				// dropping the queue while marking the reader closed ends the stream: nothing is delivered afterwards
+				terminal := false
+				core.Instrs(fn, func(i2 ssa.Instruction) {
+					if s2, ok := i2.(*ssa.Store); ok {
+						if f2, ok := s2.Addr.(*ssa.FieldAddr); ok && core.FieldOfAddr(f2).Name() == "closed" {
+							if b, ok := core.ConstBool(s2.Val); ok && b {
+								terminal = true
+							}
+						}
+					}
+				})
+				if terminal && core.IsNilConst(st.Val) {
 					return
 				}
 				n++
@@ -315,6 +334,31 @@ func checkC20(c *core.Ctx) {
 		if n < 1 {
 			r4.Missing("tcpreader/queue pops", "no r.current = r.current[k:] found")
 		}
+	}
+	r5 := c.Rule("R20.5", "T", "Reassembled hands every batch to the reader: no return without the send on the batch channel and the wait for the acknowledgement")
+	if fn := p.Func("tcpassembly/tcpreader", "ReaderStream.Reassembled"); fn == nil {
+		r5.Missing("tcpreader.Reassembled", "not found")
+	} else {
+		isSend := func(i ssa.Instruction) bool {
+			sd, ok := i.(*ssa.Send)
+			if !ok {
+				return false
+			}
+			_, ok = core.LoadsField(sd.Chan, "reassembled")
+			return ok
+		}
+		isAckRecv := func(i ssa.Instruction) bool {
+			u, ok := i.(*ssa.UnOp)
+			if !ok || u.Op != token.ARROW {
+				return false
+			}
+			_, ok = core.LoadsField(u.X, "done")
+			return ok
+		}
+		isRet := func(i ssa.Instruction) bool { _, ok := i.(*ssa.Return); return ok }
+		e1 := core.ForwardSearch(fn, nil, isRet, isSend)
+		e2 := core.ForwardSearch(fn, nil, isRet, isAckRecv)
+		r5.Check(e1 == nil && e2 == nil, "tcpreader.(*ReaderStream).Reassembled/always-hands-over", p.Pos(fn.Pos()), "every return is preceded by the send and the acknowledgement receive", "Reassembled can return without handing the batch to the reader (or without waiting for its acknowledgement): the bytes of such a batch are never returned by Read, with no error or loss indication")
 	}
 	r3 := c.Rule("R20.3", "T", "io.EOF only when closed and drained")
 
